@@ -25,7 +25,12 @@ def replay_case(pid, path):
                 "TraceHttpServer.tla": "Trace_HttpServer.cfg", "TraceHttpProxy.tla": "Trace_HttpProxy.cfg", "TraceSocks.tla": "Trace_Socks.cfg"}
         module = ex.get("module")
         cfg = ex.get("cfg") or cfgs.get(module)
-        lines = [x.rstrip("\n") for x in rp["case"]["trace"] if x.strip() and x.strip() != "..."]
+        lines = []
+        for x in rp["case"]["trace"]:
+            if x.strip() == "...":
+                break          # a long trace is stored as its head and its tail: the head is what can be re-validated
+            if x.strip():
+                lines.append(x.rstrip("\n"))
         ctx = vlib.Ctx(pid, "quick", CHECKS[pid][1])
         tp = ctx.path("replay.trace")
         with open(tp, "w") as f:
